@@ -719,7 +719,11 @@ def procBody (cfg : Cfg) (p : Proc) (ps : PState) : M PState :=
     let s ← getSys
     match s.log[i]? with
     | none => throwA (.err 95)
-    | some e => do deliver cfg p i e; pure .atRecv
+    | some e =>
+      -- the event being waited for was received from the process's own topic (in the Go code it is a local variable
+      -- of `consume`, handed over by `Recv`); the index representation re-states that
+      if subscribed p e then do deliver cfg p i e; pure .atRecv
+      else throwA (.err 95)
 
 def isConsumer : Proc → Bool
   | .outbox => false
